@@ -191,16 +191,24 @@ func (m *dsim) drawModules() {
 		}
 		if m.tp.Draw("d.v1yaml", 3) != 0 {
 			md.bufYAML = []byte(fmt.Sprintf("version: v1\nname: %s\n# %d\n", md.name, m.tp.Draw("d.nonce", 1000)))
+			if m.tp.Draw("d.v1yamlempty", 5) == 4 {
+				md.bufYAML = []byte{}
+			}
 		}
 		if m.tp.Draw("d.v1lock", 3) != 0 {
 			md.bufLock = []byte(fmt.Sprintf("version: v1\n# %d\n", m.tp.Draw("d.nonce", 1000)))
+			if m.tp.Draw("d.v1lockempty", 4) == 3 {
+				// an existing but empty buf.lock still enters the b4 manifest
+				md.bufLock = []byte{}
+			}
 		}
 		for _, extra := range []string{"LICENSE", "buf.md", "README.md", "README.markdown"} {
 			if m.tp.Draw("d.extra", 3) == 1 {
 				md.files[extra] = []byte(fmt.Sprintf("%s of d%d #%d\n", extra, i, m.tp.Draw("d.nonce", 1000)))
 			}
 		}
-		for _, junk := range []string{"notes.txt", "pkg/data.yaml", "README.txt", "LICENSE.md", "sub/LICENSE", "sub/buf.md"} {
+		for _, junk := range []string{"notes.txt", "pkg/data.yaml", "README.txt", "LICENSE.md", "sub/LICENSE", "sub/buf.md",
+			"license", "License", "LICENSE.txt", "readme.md", "Readme.md", "BUF.md", "README", "README.md.bak", "buf.md.txt", "sub/README.md", "a.proto.txt", "proto"} {
 			if m.tp.Draw("d.junk", 4) == 1 {
 				md.files[junk] = []byte(fmt.Sprintf("junk %d\n", m.tp.Draw("d.nonce", 1000)))
 			}
@@ -543,6 +551,7 @@ func Run(tp *tape.Tape, env *engine.Env) *engine.Outcome {
 			continue
 		}
 		m.cacheRoundTrip(main, ref, tarLayout)
+		m.cacheRoundTripB4(main, tarLayout)
 	}
 
 	// stored-corruption sensitivity and non-module-file insensitivity
@@ -719,6 +728,76 @@ func totalFired(s *sched.Sim) int {
 		n += v
 	}
 	return n
+}
+
+// cacheRoundTripB4 does the same for the legacy digest, whose construction includes the v1
+// buf.yaml and buf.lock objects kept beside the module files in the cache.
+func (m *dsim) cacheRoundTripB4(main int, tarLayout bool) {
+	ctx := context.Background()
+	md := m.mods[main]
+	fn, err := bufparse.ParseFullName(md.name)
+	if err != nil {
+		panic(err)
+	}
+	want4 := refB4(md.files, md.bufYAML, md.bufLock)
+	refDigest, err := bufmodule.ParseDigest(want4)
+	if err != nil {
+		m.violate("digest-equals-published-construction", "parse", "reference b4 digest %q does not parse: %v", want4, err)
+		return
+	}
+	key, err := bufmodule.NewModuleKey(fn, md.commit, func() (bufmodule.Digest, error) { return refDigest, nil })
+	if err != nil {
+		panic(err)
+	}
+	object := func(name string, content []byte) func() (bufmodule.ObjectData, error) {
+		return func() (bufmodule.ObjectData, error) {
+			if content == nil {
+				return nil, nil
+			}
+			return bufmodule.NewObjectData(name, content)
+		}
+	}
+	data := bufmodule.NewModuleData(ctx, key,
+		func() (storage.ReadBucket, error) { return storagemem.NewReadBucket(md.files) },
+		func() ([]bufmodule.ModuleKey, error) { return nil, nil },
+		object("buf.yaml", md.bufYAML),
+		object("buf.lock", md.bufLock),
+	)
+	m.n++
+	dir := filepath.Join(m.env.Scratch, fmt.Sprintf("cache%d", m.n))
+	_ = os.MkdirAll(dir, 0o755)
+	raw, err := storageos.NewProvider().NewReadWriteBucket(dir)
+	if err != nil {
+		panic(err)
+	}
+	var opts []bufmodulestore.ModuleDataStoreOption
+	layout := "dir"
+	if tarLayout {
+		opts = append(opts, bufmodulestore.ModuleDataStoreWithTar())
+		layout = "tar"
+	}
+	store := bufmodulestore.NewModuleDataStore(slogext.NopLogger, raw, filelock.NewNopLocker(), opts...)
+	if err := store.PutModuleDatas(ctx, []bufmodule.ModuleData{data}); err != nil {
+		m.violate("digest-equals-published-construction", "cache-b4|"+layout, "storing the module under a key pinned to the reference b4 digest failed: %v", err)
+		return
+	}
+	found, _, err := store.GetModuleDatasForModuleKeys(ctx, []bufmodule.ModuleKey{key})
+	if err != nil || len(found) != 1 {
+		m.violate("digest-equals-published-construction", "cache-b4|"+layout, "module not found in the cache after storing it (err=%v)", err)
+		return
+	}
+	if _, err := found[0].Bucket(); err != nil {
+		m.violate("digest-equals-published-construction", "cache-b4|"+layout, "cache (%s layout) content does not verify against the reference b4 digest (buf.yaml %d bytes, buf.lock %d bytes; -1 = absent): %v", layout, lenOrAbsent(md.bufYAML), lenOrAbsent(md.bufLock), err)
+		return
+	}
+	m.s.Probe("cache-backend-verified-b4")
+}
+
+func lenOrAbsent(b []byte) int {
+	if b == nil {
+		return -1
+	}
+	return len(b)
 }
 
 // cacheRoundTrip stores the main module in a module cache store on disk and loads it again.
